@@ -113,6 +113,17 @@ def pollPlan (fs : List FileInfo) (after : Nat) : List FileInfo :=
 
 def pollTxid (fs : List FileInfo) (after : Nat) : Nat := chainEnd after (pollPlan fs after)
 
+/-! ### Page size of the restored database (`follow`, header bytes 16..17) -/
+
+/-- SQLite stores the page size big-endian in header bytes 16..17; the value 1 means 65536.
+    `follow` sizes every page buffer and every write offset of `applyLTXFile` with it. -/
+def decodePageSize (b0 b1 : Nat) : Nat :=
+  let v := b0 * 256 + b1
+  if v = 1 then 65536 else v
+
+/-- The header bytes SQLite writes for a legal page size. -/
+def encodePageSize (ps : Nat) : Nat × Nat := if ps = 65536 then (0, 1) else (ps / 256, ps % 256)
+
 /-! ### Resume validation of `Restore` (replica.go:624-662) -/
 
 inductive ResumeErr where
